@@ -173,7 +173,7 @@ func (s *Sys) deliverRecv(dst *world.Chain, signer world.Account, msgs []sdk.Msg
 
 // relayerBalances sums the fee-token balances of every account that may relay.
 func (s *Sys) relayerBalances(c *world.Chain, t *transfer) int64 {
-	n := s.units(s.tokenOf(t), s.feeBalance(c, t, c.Accounts["r1"])) + s.units(s.tokenOf(t), s.feeBalance(c, t, c.Accounts["r2"]))
+	n := s.units(s.tokenOf(t), s.feeBalance(c, t, c.Accounts["r1"])) + s.units(s.tokenOf(t), s.feeBalance(c, t, c.Accounts["r2"])) + s.units(s.tokenOf(t), s.feeBalance(c, t, c.Accounts["r3"]))
 	if s.cfg.TSS {
 		n += s.units(s.tokenOf(t), s.feeBalance(c, t, c.Accounts["u2"]))
 	}
